@@ -93,6 +93,15 @@ def run_loop(c):
         if predicted_cells(snap, op) > 800:
             break
         what = "repetition %d, threshold %r, levels %d" % (rep + 1, t, levels)
+        # the same object is asked about other thresholds first: every answer is the one for the threshold asked about
+        for t2 in ((1.0, 0.0, t / 2) if rep % 2 == 0 else (0.0, (1 + t) / 2, 1.0)):
+            want2 = any(len(p[3]) > 0 and all(Fr(v) <= Fr(t2) for v in p[3].values()) for p in snap)
+            try:
+                got2 = alloc.must_be_refined(t2)
+            except Exception as e:
+                raise Violation("%s: must_be_refined(%r) raised %s: %s" % (what, t2, type(e).__name__, e), "must-raised")
+            if got2 != want2:
+                raise Violation("%s: must_be_refined(%r) = %r on maps %s" % (what, t2, got2, [m for *_, m, _ in snap]), "must-vs-definition")
         try:
             need = alloc.must_be_refined(t)
         except Exception as e:
